@@ -12,7 +12,6 @@ def setup(c):
 
 PROP = dict(
     id="C12",
-    disabled=True,
     engines=['c12'],
     go_tags=['c11'],
     gen_files={},
